@@ -2,7 +2,8 @@
 (***************************************************************************)
 (* Exhaustive exploration of the delay-adjusted / kernel STDP model: every *)
 (* pre/post history up to T steps, every delay in DelaySet (ticks, on and  *)
-(* off the step grid, chosen anew at every step), every rule.  Invariants  *)
+(* off the step grid, chosen anew at every step), every rule (rule "ka":   *)
+(* every constant delay in QSet steps, both trainer modes).  Invariants    *)
 (* are one-step look-ahead obligations over ALL operations of every        *)
 (* reachable state; Emit prints the outcome table of every state.          *)
 (***************************************************************************)
@@ -13,7 +14,8 @@ CONSTANTS
   RuleSet,       \* subset of DARules
   DelaySet,      \* delays offered (ticks)
   RPos, RNegMag, \* reward tokens of the three-factor rules: RPos and the negations of RNegMag
-  T, T3          \* history length (two-factor / three-factor rules)
+  T, T3,         \* history length (two-factor / three-factor rules)
+  QSet           \* constant delays (steps) of rule "ka"
 
 VARIABLE st
 vars == <<st>>
@@ -24,33 +26,58 @@ Horizon(rule) == IF Three(rule) THEN T3 ELSE T
 
 Ops(s) == IF Len(s.x) >= Horizon(s.rule) THEN {}
           ELSE [x : {0, 1}, y : {0, 1},
-                d : IF s.rule = "k" THEN {0} ELSE DelaySet,
+                d : IF s.rule \in {"k", "ka"} THEN {0} ELSE DelaySet,
                 r : IF Three(s.rule) THEN RSet ELSE {1}]
 
-Apply(s, o) ==
-  LET out == MStep(DT, s.rule, s.m, o)
-  IN [st |-> [rule |-> s.rule, x |-> Append(s.x, o.x), y |-> Append(s.y, o.y), m |-> out.m], out |-> out]
+XArr(s, o) == LET x == Append(s.x, o.x) IN Shift(x, s.q)[Len(x)]
 
-Init == st \in {[rule |-> rl, x |-> <<>>, y |-> <<>>, m |-> MInit] : rl \in RuleSet}
+Apply(s, o) ==
+  LET out == IF s.rule = "ka" THEN MStepArr(DT, s.m, o, XArr(s, o), s.q) ELSE MStep(DT, s.rule, s.m, o)
+  IN [st |-> [rule |-> s.rule, q |-> s.q, x |-> Append(s.x, o.x), y |-> Append(s.y, o.y), m |-> out.m], out |-> out]
+
+Init == st \in {[rule |-> rl, q |-> 0, x |-> <<>>, y |-> <<>>, m |-> MInit] : rl \in RuleSet \ {"ka"}}
+               \cup (IF "ka" \in RuleSet
+                     THEN {[rule |-> "ka", q |-> q, x |-> <<>>, y |-> <<>>, m |-> MArrInit] : q \in QSet} ELSE {})
 Next == \E o \in Ops(st) : st' = Apply(st, o).st
 Spec == Init /\ [][Next]_vars
 
 TypeOK == /\ st.rule \in DARules
           /\ Len(st.x) = Len(st.y)
-          /\ st.m.epre \in {Undef} \cup Nat
+          /\ st.rule # "ka" => st.m.epre \in {Undef} \cup Nat
+          /\ st.rule = "ka" => /\ st.m.earr \in {Undef} \cup Nat /\ st.m.eraw \in {Undef} \cup Nat
+                               /\ Len(st.m.ring) = Len(st.x) /\ st.q \in QSet
           /\ st.m.epost \in {Undef} \cup Nat
 
 \* the event-time recurrence equals "now - true last spike time", undefined before the first
 EventTimeOK ==
   LET t == Len(st.x)
       Ev(h) == IF LastEv(h, t) = 0 THEN Undef ELSE (t - LastEv(h, t)) * DT
-  IN st.m.epre = Ev(st.x) /\ st.m.epost = Ev(st.y)
+  IN IF st.rule = "ka"
+     THEN /\ st.m.eraw = Ev(st.x) /\ st.m.epost = Ev(st.y)
+          /\ st.m.earr = Ev(Shift(st.x, st.q))                 \* the fold over arrivals = the fold over the shifted train
+     ELSE st.m.epre = Ev(st.x) /\ st.m.epost = Ev(st.y)
 
 \* C18: the mechanism requests exactly the documented function of the true tdelta
 Refinement ==
   \A o \in Ops(st) :
     LET a == Apply(st, o)
-    IN MechDW(a.out, o.r) = AbsDW(DT, st.rule, a.st.x, a.st.y, Len(a.st.x), o.d, o.r)
+    IN IF st.rule = "ka"
+       THEN LET want == AbsDWArr(DT, a.st.x, a.st.y, Len(a.st.x), st.q)
+            IN /\ MechDW(a.out.undelayed, 1) = want               \* both trainer modes request the documented
+               /\ MechDW(a.out.delayed, 1) = want                 \* function of the arrival times
+       ELSE MechDW(a.out, o.r) = AbsDW(DT, st.rule, a.st.x, a.st.y, Len(a.st.x), o.d, o.r)
+
+\* a constant delay of q steps is the unadjusted kernel rule on the presynaptic train shifted by q steps
+ShiftIdentity ==
+  st.rule = "ka" =>
+    \A o \in Ops(st) :
+      LET x == Append(st.x, o.x)
+          y == Append(st.y, o.y)
+          t == Len(x)
+      IN /\ AbsDWArr(DT, x, y, t, st.q) = AbsDW(DT, "k", Shift(x, st.q), y, t, 0, 1)
+         \* and differs from the ADJUSTED rule exactly when a spike is in flight or arrives late
+         /\ (LastEv(x, t) = ArrLast(x, t, st.q) /\ AbsArrDefined(x, y, t, st.q))
+               => AbsDWArr(DT, x, y, t, st.q) = AbsDW(DT, "w", x, y, t, st.q * DT, 1)
 
 \* identities: the weight rule and the delay rule are mirror images (eta/tau swapped), and
 \* with delay 0 the adjusted rule is the unadjusted kernel rule
@@ -66,6 +93,7 @@ Identities ==
 
 \* routing to the accumulators for every sign mode
 RoutingOK ==
+  st.rule # "ka" =>
   \A o \in Ops(st) : \A splus \in {-1, 1}, sminus \in {-1, 1} :
     LET a == Apply(st, o)
         dw == MechDW(a.out, o.r)
@@ -76,10 +104,14 @@ RoutingOK ==
     IN MechRoute(a.out, sa, sb, o.r) = <<PosPart(dw, S), NegPart(dw, S)>>
 
 Emit ==
-  PrintT(ToJson([s |-> [rule |-> st.rule, x |-> st.x, y |-> st.y],
+  PrintT(ToJson([s |-> [rule |-> st.rule, q |-> st.q, x |-> st.x, y |-> st.y],
                  out |-> {[op |-> o,
-                           dw |-> AsSet(AbsDW(DT, st.rule, Append(st.x, o.x), Append(st.y, o.y), Len(st.x) + 1, o.d, o.r)),
-                           near |-> {AsSet(v) : v \in AbsNear(DT, st.rule, Append(st.x, o.x), Append(st.y, o.y),
-                                                             Len(st.x) + 1, o.d, o.r)}]
+                           dw |-> AsSet(IF st.rule = "ka"
+                                        THEN AbsDWArr(DT, Append(st.x, o.x), Append(st.y, o.y), Len(st.x) + 1, st.q)
+                                        ELSE AbsDW(DT, st.rule, Append(st.x, o.x), Append(st.y, o.y), Len(st.x) + 1, o.d, o.r)),
+                           near |-> {AsSet(v) : v \in IF st.rule = "ka"
+                                        THEN AbsNearArr(DT, Append(st.x, o.x), Append(st.y, o.y), Len(st.x) + 1, st.q)
+                                        ELSE AbsNear(DT, st.rule, Append(st.x, o.x), Append(st.y, o.y),
+                                                     Len(st.x) + 1, o.d, o.r)}]
                           : o \in Ops(st)}]))
 =============================================================================
